@@ -19,6 +19,9 @@ def dedup (l : List Name) : List Name :=
 
 def defaultDeps : DepOrder := fun _ e => dedup (fv e)
 
+/-- `sorted(dependencies)`: what reaches `sorter.add` no longer depends on set iteration order -/
+def sortNames (l : List Name) : List Name := sortByName id l
+
 /-- `ODE.dependents()` keys: every name mentioned by some assignment. -/
 def mentioned (m : Model) : List Name := dedup (m.assigns.flatMap fun a => fv a.2)
 
@@ -26,7 +29,7 @@ def mentioned (m : Model) : List Name := dedup (m.assigns.flatMap fun a => fv a.
 def sortedAssignments (m : Model) (π : DepOrder) (removeUnused : Bool) : Option (List Name) :=
   let used := mentioned m
   let inters := if removeUnused then m.inters.filter fun a => used.contains a.1 else m.inters
-  let adds := (inters ++ m.derivs.map fun d => (d.1, d.2.2)).map fun a => (a.1, π a.1 a.2)
+  let adds := (inters ++ m.derivs.map fun d => (d.1, d.2.2)).map fun a => (a.1, sortNames (π a.1 a.2))
   sortAssignments adds
 
 /-- `ODE.sorted_states()` (always computed without removal) -/
@@ -36,7 +39,7 @@ def sortedStates (m : Model) (π : DepOrder) : Option (List Name) :=
 /-- `ODE.missing_variables`: mentioned names that are neither atoms nor `t`/`time`, sorted. -/
 def missingVariables (m : Model) : List Name :=
   let known := m.stateNames ++ m.paramNames ++ m.assignNames ++ timeNames
-  (mentioned m).filter (fun x => !known.contains x) |>.mergeSort (fun a b => a ≤ b)
+  sortNames ((mentioned m).filter (fun x => !known.contains x))
 
 /-- The slot layout the index functions of a generated module report. -/
 def layout (m : Model) (π : DepOrder) : Option Layout := do
